@@ -169,10 +169,10 @@ def parse_compound(r, tier):
     return out
 
 
-def parse_all(r, tier):
+def parse_all(r, tier, big=True):
     return (parse_typed(r, tier) + parse_custom(r, tier) + streams.sdes_short_bodies(r, tier)
             + streams.sdes_wf_variants(r, 300 if tier == "quick" else 6000) + parse_compound(r, tier)
-            + parse_fci(r, tier) + streams.rb_stream(r, tier) + streams.big_inputs(r))
+            + parse_fci(r, tier) + streams.rb_stream(r, tier) + (streams.big_inputs(r) if big else []))
 
 
 def pad_stream(r, tier, kinds=None):
@@ -193,6 +193,30 @@ def pad_stream(r, tier, kinds=None):
         b = gen.encode(c)
         for n in range(0, 256, 4 if tier == "quick" else 1):
             reqs.append((f"(pad {k} {gen.B(b)} {n})", {"op": "pad", "kind": k, "bytes": b, "n": n, "wf": c}))
+    return reqs
+
+
+def big_light(r):
+    """the inputs beyond 64 KiB minus the three on which the model's iterators are quadratic
+    (a 64 KiB NACK list, directly and inside a transport feedback packet, and a 64 KiB SDES): those
+    run in C01 and C15 only"""
+    return [(q, m) for q, m in streams.big_inputs(r) if not (m["kind"] in ("tfb", "nack", "sdes") and len(m["bytes"]) > 60000)]
+
+
+def pad_big(r):
+    """padding added to packets of 64 KiB and more (the padding count then sits beyond offset 65535)"""
+    import struct
+    reqs = []
+    for kind, mk in (("app", lambda n: {"k": "app", "ssrc": gen.r_u32(r), "name": b"BIG!", "padding": 0, "subtype": 3, "data": bytes(r.getrandbits(8) | 1 for _ in range(n))}),
+                     ("unknown", lambda n: {"k": "unknown", "type": 207, "data": bytes(r.getrandbits(8) | 1 for _ in range(n)), "padding": 0, "count": 5}),
+                     ("pfb", lambda n: {"k": "pfb", "mode": "owned", "fci": {"k": "rpsi", "pt": 96, "data": bytes(r.getrandbits(8) | 1 for _ in range(n - 2)), "overrun": 3},
+                                        "padding": 0, "sender": 1, "media": 2}),
+                     ("packet", lambda n: {"k": "app", "ssrc": 9, "name": b"pkt_", "padding": 0, "subtype": 0, "data": bytes(r.getrandbits(8) | 1 for _ in range(n))})):
+        for n in (65524, 65528, 65532, 4 * r.randint(16400, 25000), 100000):
+            c = mk(n)
+            b = gen.encode(c)
+            for pad in (4, r.choice([8, 12, 252])):
+                reqs.append((f"(pad {kind} {gen.B(b)} {pad})", {"op": "pad", "kind": kind, "bytes": b, "n": pad, "wf": c}))
     return reqs
 
 
@@ -244,7 +268,7 @@ def of_kinds(reqs, kinds):
 
 def streams_for(pid, r, tier):
     if pid == "C01":
-        return parse_all(r, tier) + pad_stream(r, "quick")
+        return parse_all(r, tier) + pad_stream(r, "quick") + pad_big(r)
     if pid == "C02":
         return build_stream(r, tier, ("sr", "rr")) + of_kinds(build_stream(r, "quick", ("pb",)), ("sr", "rr"))
     if pid == "C03":
@@ -256,7 +280,7 @@ def streams_for(pid, r, tier):
     if pid in ("C06", "C07", "C16", "C17"):
         return build_stream(r, tier, big=(pid == "C16" or tier == "thorough"))
     if pid == "C08":
-        return parse_typed(r, tier) + parse_custom(r, tier, 0.15) + pad_stream(r, "quick")
+        return parse_typed(r, tier) + parse_custom(r, tier, 0.15) + pad_stream(r, "quick") + big_light(r)
     if pid == "C09":
         return (parse_typed(r, tier, ["sr", "rr", "app", "bye", "tfb", "pfb", "unknown", "packet"])
                 + streams.rb_stream(r, tier))
@@ -270,7 +294,7 @@ def streams_for(pid, r, tier):
             out += [streams.P("packet", m["bytes"]) for _, m in streams.structured(k, r, 150 if tier == "quick" else 1500)]
         return out
     if pid == "C13":
-        return pad_stream(r, tier)
+        return pad_stream(r, tier) + pad_big(r)
     if pid == "C14":
         out = []
         for q, m in build_stream(r, tier, ("compound",), big=True):
@@ -286,7 +310,7 @@ def streams_for(pid, r, tier):
     if pid == "C15":
         return parse_fci(r, tier) + parse_typed(r, tier, ["tfb", "pfb"]) + pad_stream(r, "quick", ["tfb", "pfb"])
     if pid == "C18":
-        return parse_all(r, tier)
+        return parse_all(r, tier, big=False) + big_light(r)
     if pid == "C19":
         out = parse_custom(r, tier, 1.0) + build_stream(r, tier, ("custom", "unknown"))
         out += [(q, m) for q, m in build_stream(r, tier, ("compound",)) if "custom" in q or "unknown" in q]
